@@ -18,7 +18,7 @@ impl Prop for C17 {
         "C17"
     }
     fn rule_text(&self) -> String {
-        "case = tap-dance (lazy / eager) with 1-4 distinct marker actions, T in {2,5,20,200}, one other plain key; schedules: 1-6 taps with press-to-press gaps from {T-1,T,T+1,small}, the last tap optionally held, optionally interrupted by the other key, or the other key already held before the dance and released at an arbitrary point of it, then silence. A reference function segments the presses into dances by the 'gap < T' rule and predicts the marker sequence. non-trivial = a marker was output; distinct = config x schedule hash.".into()
+        "case = tap-dance (lazy / eager) with 1-4 distinct marker actions, T in {2,5,20,200}, one other key (plain or a mouse button, i.e. a custom action only); schedules: 1-6 taps with press-to-press gaps from {T-1,T,T+1,small}, the last tap optionally held, optionally interrupted by the other key, or the other key already held before the dance and released at an arbitrary point of it, then silence. A reference function segments the presses into dances by the 'gap < T' rule and predicts the marker sequence. non-trivial = a marker was output; distinct = config x schedule hash.".into()
     }
     fn runs(&self, tier: Tier) -> u64 {
         match tier {
@@ -33,11 +33,15 @@ impl Prop for C17 {
         let t = *r.pick(&[2u64, 5, 20, 200]);
         let red = *r.pick(&[0u64, 5]);
         let mut case = Case { prop: "C17".into(), seed, ..Default::default() };
+        // the other key is a plain key or a mouse-button key (a custom action only)
+        let b_custom = r.chance(250);
         case.cfg = format!(
-            "(defcfg rapid-event-delay {red})\n(defsrc a b)\n(deflayer l0 ({} {t} ({})) 1)\n",
+            "(defcfg rapid-event-delay {red})\n(defsrc a b)\n(deflayer l0 ({} {t} ({})) {})\n",
             if eager { "tap-dance-eager" } else { "tap-dance" },
-            MARKERS[..len].join(" ")
+            MARKERS[..len].join(" "),
+            if b_custom { "mlft" } else { "1" }
         );
+        case.set("b_custom", b_custom as u8);
         let (a, b) = (oscode_of("a"), oscode_of("b"));
         let n = r.range(1, 6);
         let mut ops = vec![];
@@ -110,7 +114,18 @@ impl Prop for C17 {
         st.run_ops(&case.ops);
         st.gap(300);
         st.finish();
-        let outs = st.trace.outs.clone();
+        let mut outs = st.trace.outs.clone();
+        if case.param_flag("b_custom") {
+            for e in outs.iter_mut() {
+                if e.key == "Left" && e.kind == OutKind::MouseDown {
+                    e.kind = OutKind::Press;
+                    e.key = "Kb1".into();
+                } else if e.key == "Left" && e.kind == OutKind::MouseUp {
+                    e.kind = OutKind::Release;
+                    e.key = "Kb1".into();
+                }
+            }
+        }
         let mut o = RunOut::pass();
         o.sim_ms = st.trace.sim_ms;
         let eager = case.param_u64("eager").unwrap_or(0) == 1;
